@@ -73,11 +73,12 @@ fn eval_arc(cx: f32, cy: f32, r: f32, start: f32, sweep: f32, with_cur: bool) ->
     let mut prev_ang = (p0.1 - c.1).atan2(p0.0 - c.0);
     let sign = if sw >= 0.0 { 1.0 } else { -1.0 };
     for (i, op) in ops.iter().enumerate().skip(1) {
-        let (ct, to) = match op {
-            PathOp::QuadTo(a, b) => ((a.x as f64, a.y as f64), (b.x as f64, b.y as f64)),
-            other => return bad("only-quads-after-line_to", format!("op {} is {:?}", i, other)),
+        // the property says "a curve": quadratic (what lyon emits today) or cubic segments
+        let (q, to) = match op {
+            PathOp::QuadTo(a, b) => (Curve::Quad(cur, (a.x as f64, a.y as f64), (b.x as f64, b.y as f64)), (b.x as f64, b.y as f64)),
+            PathOp::CubicTo(a, b, c) => (Curve::Cubic(cur, (a.x as f64, a.y as f64), (b.x as f64, b.y as f64), (c.x as f64, c.y as f64)), (c.x as f64, c.y as f64)),
+            other => return bad("only-curves-after-line_to", format!("op {} is {:?}", i, other)),
         };
-        let q = Curve::Quad(cur, ct, to);
         for k in 1..=32 {
             let p = q.eval(k as f64 / 32.0);
             let d = dist(p, c);
